@@ -186,7 +186,19 @@ func GenRoundDigits(t *rapid.T, label string, p int) string {
 			head = head[:p-k] + strings.Repeat("9", k)
 		}
 	}
-	z := strings.Repeat("0", rapid.IntRange(0, 40).Draw(t, label+".zl"))
+	zl := rapid.IntRange(0, 40).Draw(t, label+".zl")
+	if rapid.IntRange(0, 5).Draw(t, label+".zfar") == 0 {
+		// one stray digit far below the rounding position, often in the first or last digit of a word
+		zl = rapid.IntRange(0, 1500).Draw(t, label+".zlfar")
+		if al := rapid.IntRange(0, 2).Draw(t, label+".zalign"); al > 0 {
+			// the stray digit's index from the top is p + 1 + zl (tails "5"+z+"1") or p + zl (tail z+"1")
+			zl += (DW - (p+1+zl)%DW) % DW
+			if al == 2 && zl > 0 {
+				zl--
+			}
+		}
+	}
+	z := strings.Repeat("0", zl)
 	n := strings.Repeat("9", rapid.IntRange(1, 40).Draw(t, label+".nl"))
 	var tail string
 	switch rapid.IntRange(0, 8).Draw(t, label+".tail") {
@@ -250,7 +262,7 @@ func GenPrecFor(t *rapid.T, label string, minPrec int) uint {
 	if minPrec < 1 {
 		minPrec = 1
 	}
-	switch rapid.IntRange(0, 7).Draw(t, label+".cls") {
+	switch rapid.IntRange(0, 8).Draw(t, label+".cls") {
 	case 0, 1, 2:
 		return uint(minPrec)
 	case 3, 4:
@@ -259,6 +271,17 @@ func GenPrecFor(t *rapid.T, label string, minPrec int) uint {
 		return uint(minPrec + rapid.IntRange(0, 5000).Draw(t, label))
 	case 6:
 		return model.MaxPrec
+	case 7:
+		// values at which 32-bit arithmetic on precisions (doubling, adding, times 19, in bits) wraps or changes sign
+		base := rapid.SampledFrom([]uint64{1 << 31, 1 << 31, 1 << 30, 1 << 32, (1 << 32) / 3, (1 << 32) / 19, (1 << 31) / 19, 1292913986 /* 2^32*log10(2) */, 646456993}).Draw(t, label+".edge")
+		p := int64(base) + int64(rapid.IntRange(-40, 40).Draw(t, label+".edgeoff"))
+		if p > model.MaxPrec {
+			p = model.MaxPrec
+		}
+		if p < int64(minPrec) {
+			p = int64(minPrec)
+		}
+		return uint(p)
 	default:
 		return uint(rapid.Uint32Range(uint32(minPrec), model.MaxPrec).Draw(t, label))
 	}
@@ -294,7 +317,7 @@ func GenResultPrec(t *rapid.T, label string, around int, max int) uint {
 }
 
 func GenHist(t *rapid.T, label string) string {
-	return rapid.SampledFrom([]string{"", "", "", "acc", "cap", "stale", "hugecap"}).Draw(t, label)
+	return rapid.SampledFrom([]string{"", "", "", "acc", "cap", "stale", "hugecap", "pad"}).Draw(t, label)
 }
 
 // GenFinite draws a finite Spec (value, precision >= digits, mode, history).
